@@ -282,6 +282,55 @@ def rel_ladder(material, mode, period, k):
     return None, hi
 
 
+def mixed_pair(rng, material, mode):
+    """yield two-point tubes (B, A): B carries comparable creep and fatigue damage per day (it sits near the knee of
+    the interaction diagram and governs the life), A is almost purely fatigue with a LARGER damage sum.  With a
+    concave envelope the point with the smaller damage sum can govern: adding A to B must never raise the life
+    above B's, whatever the ratio of the sums.  Yields (case_B, case_A, case_both, g)."""
+    c = dc.gen_case(rng, regime="crossing", material=material, mode=mode, days=1, ntubes=1, period=24.0)
+    B = c01._sub_point(c, 0, 0, 0)
+    B["tubes"][0] = {k: np.array(v, dtype=float, copy=True) for k, v in B["tubes"][0].items()}
+    d = dc.indep_damages(B)[0]
+    if d is None:
+        return
+    cB, fB = float(d[0][0, 0]), float(d[1][0, 0])
+    if not (cB > 0 and fB > 0 and math.isfinite(cB) and math.isfinite(fB)):
+        return
+    f = 2.0 ** round(math.log2(fB / cB))            # creep damage is linear in the time scale
+    B["tubes"][0]["times"] = B["tubes"][0]["times"] * f
+    B["period"] = float(B["period"] * f)
+    for g in (1.1, 1.15, 1.2, 1.25, 1.3, 1.35, 1.4, 1.5, 1.6, 1.75, 2.0, 2.5):
+        A = copy_case(B)
+        A["tubes"][0]["stress"] = A["tubes"][0]["stress"] * 2.0 ** -10
+        A["tubes"][0]["strain"] = A["tubes"][0]["strain"] * g
+        if load_room(A, 0, 0, 0, "strain") < 1.0:
+            break
+        both = copy_case(B)
+        tb, ta = both["tubes"][0], A["tubes"][0]
+        for k in ("stress", "strain"):
+            tb[k] = np.concatenate([tb[k], ta[k]], axis=2)
+        tb["temp"] = np.concatenate([tb["temp"], ta["temp"]], axis=1)
+        yield B, A, both, g
+
+
+_LB = {}
+
+
+def rel_mixed(B, A, both):
+    kb = id(B)
+    if kb not in _LB:
+        _LB.clear()
+        _LB[kb] = run_life(B)
+    lb, la, lboth = _LB[kb], run_life(A), run_life(both)
+    if is_raise(lb) or is_raise(la) or is_raise(lboth):
+        return None
+    for name, single in (("the mixed creep-fatigue point", lb), ("the fatigue point", la)):
+        if not not_larger(both, lboth, single):
+            return ("a tube with both points has life %r, above the life %r of %s alone (%s, %s)"
+                    % (lboth, single, name, both["material"], both["mode"]))
+    return None
+
+
 def rel_tube(case, tube):
     a = run_life(case)
     c2 = add_tube(case, tube)
@@ -367,6 +416,17 @@ def run(ctx):
             Q = random_rotation(rng)
             what, c2 = rel_rot(base, Q)
             note("rot-curved", what, dict(kind="rot", case=dc.case_to_json(base), Q=Q.tolist()), (i, r), not isinstance(a, str))
+    # a point with the smaller damage sum that governs (concave envelope): never screened out by a heavier point
+    nmix = 0
+    for i, mat in enumerate(mats):
+        for rep_ in range(2 if ctx.quick() else 6):
+            mode = ("lump", "last")[(i + rep_) % 2]
+            for (B, A, both, g) in mixed_pair(rng, mat, mode):
+                what = rel_mixed(B, A, both)
+                nmix += 1
+                note("mixed-points", what, dict(kind="mixed", B=dc.case_to_json(B), A=dc.case_to_json(A), both=dc.case_to_json(both)),
+                     (mat, rep_, g), True)
+    ctx.extra["mixed_point_pairs"] = nmix
     # light-load ladder: raising a small stress (well below 1 MPa included) never lengthens the life
     nlad = 0
     for i, mat in enumerate(mats):
@@ -528,6 +588,8 @@ def eval_replay(r):
     k = r["kind"]
     if k == "scale":
         return rel_scale(r["material"], np.array(r["Df"]), np.array(r["Dc"]), r["l"])[0]
+    if k == "mixed":
+        return rel_mixed(dc.case_from_json(r["B"]), dc.case_from_json(r["A"]), dc.case_from_json(r["both"]))
     if k == "ladder":
         what = rel_ladder(r["material"], r["mode"], r["period"], r["k"])[0]
         return None if what == "skip" else what
